@@ -20,6 +20,9 @@ Round 4: (C19-prototype-snapshot) as_prototype takes a new snapshot per request;
 (C19-defaults-copied-whole) no field-wise copy protocol on Packet.
 
 Round 5: the prototype replaced by the class itself on a path chosen by == (field values only).
+
+Round 6: (a') nobody rewrites a default after construction; flat copies of list defaults;
+Optional.pack decides on 'is None' (C08 pair rule).
 """
 import ast
 
